@@ -26,7 +26,7 @@
 From Coq Require Import ZArith QArith Qminmax List.
 From VL Require Import Prelude.PyDict Model.GetNBest Model.Convert Model.Cardinal Proofs.Cardinal_proofs
      Proofs.MJ_proofs Proofs.JR_proofs Model.Condorcet Model.Star Proofs.Star_proofs
-     Model.Quota Model.AllocScore Proofs.AllocScore_proofs Proofs.MJ_removal_proofs.
+     Model.Quota Model.AllocScore Proofs.AllocScore_proofs Proofs.MJ_removal_proofs Proofs.MJ_seats_proofs Proofs.Shape2_proofs Proofs.Star_seats_proofs Proofs.ScoreDict_proofs Proofs.Truncation_proofs.
 From Coq Require Import Permutation.
 Import ListNotations.
 Close Scope Q_scope.
@@ -422,6 +422,226 @@ Example C12_mj_multi_copy_example :
   mj_ch ex_sub ex_med = 2%Z /\ mj_successive 2 ex_sub = inl (mj_remove ex_sub ex_med 2).
 Proof. exact mj_multi_copy_example. Qed.
 
+(* ---- majority judgment for ANY number of seats against an independent reference order (Proofs/MJ_seats_proofs.v).
+   The reference is per candidate: the removal sequence (majority value) of the grade counts [d] -
+   [mj_seq k d] = the lower median of d after k single removals of the then current lower median (None once the
+   candidate has run out of grades); [mj_lex_lt d' d] = the sequence of d' is lexicographically below that of d:
+   they agree (as numbers) on the entries before some k, both have an entry k, and there d' is strictly lower.
+   Default tie-break, every seat count n >= 1, every configuration: an answer contains no tie object, has
+   min(n, number of candidates) distinct entries, all of them candidates of the votes, and EVERY elected candidate is
+   lexicographically strictly above EVERY candidate left out - the answer is exactly the top-n set of the reference
+   order (for n = 1: the unique lexicographic maximum).  cs_ok (counts >= 0, grades of one candidate numerically
+   distinct) is the well-formedness of the score dictionaries; cs_okb decides it (C12_mj_seats_example). *)
+Theorem C12_mj_seats_default : forall cf votes n sc r,
+  1 <= n -> corrected_scores cf votes = inl sc -> Forall cs_ok sc ->
+  majority_judgment false cf votes n = inl r ->
+  (forall x, In x r -> exists c, x = Cand c) /\ length r = Nat.min n (length sc) /\ NoDup r /\
+  (forall c, In (Cand c) r -> In c (map fst sc)) /\
+  (forall c d c' d', In (Cand c) r -> In (c, d) sc -> In (c', d') sc -> ~ In (Cand c') r -> mj_lex_lt d' d).
+Proof. exact mj_default_seats_rule. Qed.
+
+(* the tie-breaker itself (MajorityJudgment._tiebreak_default, recursion over the seats included) on any set of
+   candidates: same statement *)
+Theorem C12_mj_seats_tiebreaker : forall fuel sub n r,
+  NoDup (map fst sub) -> Forall cs_ok sub -> 1 <= n ->
+  mj_default fuel sub n = inl r ->
+  (forall x, In x r -> exists c, x = Cand c) /\ length r = Nat.min n (length sub) /\ NoDup r /\
+  (forall c d c' d', In (Cand c) r -> In (c, d) sub -> In (c', d') sub -> ~ In (Cand c') r -> mj_lex_lt d' d).
+Proof.
+  intros fuel sub n r Hnd Hok Hn Hr. destruct (mj_default_seats fuel sub n r Hnd Hok Hn Hr) as [H1 H2].
+  destruct (mj_default_seats_count fuel sub n r Hnd Hn Hr) as [H3 H4]. repeat split; assumption.
+Qed.
+
+(* plus rule, every seat count: the answer has min(n, candidates) entries; a candidate listed plainly has strictly
+   more grades at or above the shared median than every candidate with the same median that is not; the members of a
+   reported tie have at least as many as any such candidate, and exactly as many as each other *)
+Theorem C12_mj_seats_plus : forall cf votes n sc med r,
+  1 <= n -> corrected_scores cf votes = inl sc -> aggregate FMedianLow sc = inl med ->
+  majority_judgment true cf votes n = inl r ->
+  length r = Nat.min n (length sc) /\
+  forall c vc d c' vc' d', In (c, vc) med -> In (c, d) sc -> In (c', vc') med -> In (c', d') sc -> (vc' == vc)%Q ->
+    ~ In (Cand c') r ->
+    (In (Cand c) r -> (counts_over d' vc < counts_over d vc)%Z) /\
+    (forall T, In (TieR T) r -> In c T ->
+       (counts_over d' vc <= counts_over d vc)%Z /\ (In c' T -> counts_over d' vc = counts_over d vc)).
+Proof. exact mj_plus_seats_rule. Qed.
+
+(* the removal sequence while the loop removes several copies at once: the first mj_ch entries of every candidate still
+   level are the shared median, and what the loop keeps is the dictionary after mj_ch single removals *)
+Theorem C12_mj_seats_round : forall sub medians T c dn,
+  NoDup (map fst sub) -> Forall cs_ok sub -> aggregate FMedianLow sub = inl medians ->
+  In (c, dn) (mj_round sub medians T) ->
+  exists d m, In (c, d) sub /\ In c T /\ In (c, m) medians /\
+    mj_rmk (Z.to_nat (mj_ch (mj_level sub T) medians)) d = inl dn /\
+    forall j, j < Z.to_nat (mj_ch (mj_level sub T) medians) -> mj_seq j d = Some m.
+Proof. intros sub medians T c dn Hnd Hok Ha Hin. exact (mj_round_seq sub medians T Hnd Hok Ha c dn Hin). Qed.
+
+Example C12_mj_seats_example :
+  majority_judgment false ex_seats_cfg ex_seats_votes 2 = inl [Cand 2%positive; Cand 3%positive] /\
+  exists sc, corrected_scores ex_seats_cfg ex_seats_votes = inl sc /\ Forall cs_ok sc /\
+    mj_seq 0 (dget_or sc 1%positive []) = Some 1%Q /\ mj_seq 0 (dget_or sc 2%positive []) = Some 1%Q /\
+    mj_seq 1 (dget_or sc 1%positive []) = Some 0%Q /\ mj_seq 1 (dget_or sc 2%positive []) = Some 1%Q.
+Proof. exact mj_seats_example. Qed.
+
+(* ---- STAR against its definition, any number of seats (Proofs/Star_seats_proofs.v).
+   The run-off table: for run-off members x, y the pairwise dictionary holds exactly the ballot weight that places x
+   above y (unscored below every scored candidate), and the candidates Schulze sees are exactly the members that some
+   ballot separates from another member ([separated]). *)
+Theorem C12_star_table : forall votes members,
+  NoDup members ->
+  (forall x y, In x members -> In y members -> pget0 (star_pairwise votes members) (x, y) = support votes x y) /\
+  (forall x, In x (candidates (star_pairwise votes members)) <-> In x members /\ separated votes members x = true).
+Proof.
+  intros votes members Hnd. split.
+  - intros x y Hx Hy. exact (star_pairwise_support votes members x y Hnd Hx Hy).
+  - intros x. exact (star_candidates votes members x).
+Qed.
+
+(* STAR for n seats is Schulze over that table of the run-off members [star_finalists agg n] (the plain entries among the
+   n + 1 highest score sums; distinct); it returns min(n, number of separated members) entries.  The silently shorter
+   answers (known finding C08-star-short) are EXACTLY the class [star_shortb]: fewer than n run-off members are separated
+   from another member by some ballot (decidable; includes a tied finalist cut, which empties or shrinks the run-off);
+   in the class the answer lists just the separated members, plainly; outside it the answer is a well-shaped selection
+   of n (nform: distinct plain winners, then at most one tie object repeated for the open seats, with more members than
+   open seats) among the separated members.  Schulze itself on such a table: C05_schulze_score / _strongest_paths. *)
+Theorem C12_star_seats : forall votes order agg n r,
+  1 <= n -> score_to_simple star_cfg votes = inl agg -> star votes order n = inl r ->
+  r = schulze (star_pairwise votes (star_finalists agg n)) order n /\
+  NoDup (star_finalists agg n) /\
+  length r = Nat.min n (length (star_contest votes agg n)) /\
+  (length r < n <-> star_shortb votes agg n = true) /\
+  (star_shortb votes agg n = false -> nform (star_contest votes agg n) n r) /\
+  (star_shortb votes agg n = true -> exists s, Permutation s (star_contest votes agg n) /\ r = map Cand s).
+Proof. intros votes order agg n r Hn Ha Hr. exact (star_seats votes order agg n r Hn Ha Hr). Qed.
+
+(* one seat, every profile with positive ballot weights - the complete table: two untied finalists a, b (the two highest
+   score sums, not level with the third): the one placed above the other by strictly more ballot weight wins; equal
+   positive weights: the tie of the two; no ballot separates them: nothing (the short class).  No two untied finalists
+   (a tie at the finalist cut, or a single candidate): nothing. *)
+Theorem C12_star_single_exact : forall votes agg,
+  (forall bw, In bw votes -> (0 < snd bw)%Z) ->
+  score_to_simple star_cfg votes = inl agg ->
+  match get_n_best Qle_bool agg 2 with
+  | [Cand a; Cand b] =>
+      ((support votes b a < support votes a b)%Z -> star_auto votes 1 = inl [Cand a]) /\
+      ((support votes a b < support votes b a)%Z -> star_auto votes 1 = inl [Cand b]) /\
+      (support votes a b = support votes b a -> (0 < support votes a b)%Z ->
+         star_auto votes 1 = inl [TieR [a; b]] \/ star_auto votes 1 = inl [TieR [b; a]]) /\
+      (support votes a b = 0%Z -> support votes b a = 0%Z -> star_auto votes 1 = inl [])
+  | _ => star_auto votes 1 = inl []
+  end.
+Proof. exact star_single_exact. Qed.
+
+(* both sides of the class are inhabited: C12_star_example's profile is outside it, the recorded witness of C08-star-short
+   (two voters A:5 B:5 D:3) is inside *)
+Example C12_star_short_example :
+  (exists agg, score_to_simple star_cfg star_short_votes = inl agg /\ star_shortb star_short_votes agg 1 = true) /\
+  star_auto star_short_votes 1 = inl [] /\
+  let votes : sprofile := [([(1%positive, 5#1); (2%positive, 0#1); (3%positive, 0#1)], 1%Z);
+                           ([(1%positive, 4#1); (2%positive, 2#1)], 1%Z);
+                           ([(1%positive, 0#1); (2%positive, 2#1); (3%positive, 1#1)], 3%Z)]%Q in
+  exists agg, score_to_simple star_cfg votes = inl agg /\ star_shortb votes agg 1 = false /\ star_shortb votes agg 2 = false /\
+    star_auto votes 2 = inl [Cand 2%positive; Cand 3%positive].
+Proof.
+  split; [eexists; split; vm_compute; reflexivity|]. split; [vm_compute; reflexivity|].
+  eexists. split; [vm_compute; reflexivity|]. repeat split; vm_compute; reflexivity.
+Qed.
+
+(* ---- the well-formedness hypothesis of the majority-judgment theorems is met by every real input: for every configuration
+   (unscored_value, min_count, truncation) the corrected score dictionaries have counts >= 0 and numerically distinct
+   grades whenever the ballot counts are >= 0 and no ballot scores a candidate twice (profile_ok) *)
+Theorem C12_corrected_scores_ok : forall cf votes sc,
+  profile_ok votes -> corrected_scores cf votes = inl sc -> Forall cs_ok sc.
+Proof. exact corrected_scores_ok. Qed.
+
+(* ... so the n-seat default rule holds with hypotheses on the ballots only *)
+Theorem C12_mj_seats_default_wf : forall cf votes n sc r,
+  1 <= n -> profile_ok votes -> corrected_scores cf votes = inl sc ->
+  majority_judgment false cf votes n = inl r ->
+  (forall x, In x r -> exists c, x = Cand c) /\ length r = Nat.min n (length sc) /\ NoDup r /\
+  (forall c, In (Cand c) r -> In c (map fst sc)) /\
+  (forall c d c' d', In (Cand c) r -> In (c, d) sc -> In (c', d') sc -> ~ In (Cand c') r -> mj_lex_lt d' d).
+Proof.
+  intros cf votes n sc r Hn Hv Hsc Hr.
+  exact (mj_default_seats_rule cf votes n sc r Hn Hsc (corrected_scores_ok cf votes sc Hv Hsc) Hr).
+Qed.
+
+Example C12_profile_ok_example : profile_ok ex_seats_votes.
+Proof.
+  intros bn Hin. unfold ex_seats_votes in Hin. cbn [In] in Hin.
+  repeat (destruct Hin as [<-|Hin]; [split; [cbn; discriminate|cbn [fst map]; repeat constructor; cbn [In]; intuition discriminate]|]).
+  destruct Hin.
+Qed.
+
+(* ---- score aggregation: the corrections of ScoreToSimpleVotes against their definition (Proofs/Truncation_proofs.v).
+   [d]: one candidate's score -> count dictionary (counts >= 0, scores numerically distinct: cs_okd; C12_corrected_scores_ok
+   gives it for the dictionaries the converter builds); [expand d]: the list of its scores; cnt p l = length (filter p l);
+   lev t y: y <= t; gev t y: t <= y.
+   Truncation with cut-off c >= 0: the sweep over the ascending keys removes EXACTLY the c lowest scores - for every
+   threshold t the number of scores <= t drops by min(c, that number) - and the sweep over the descending keys exactly
+   the c highest of what is left; no KeyError. *)
+Theorem C12_score_truncation : forall d c, cs_okd d -> (0 <= c)%Z ->
+  let keys := sort_q (map fst d) in
+  exists d2 d3, subtract_lowest d keys c 0 = Some d2 /\ subtract_lowest d2 (rev keys) c 0 = Some d3 /\ cs_okd d3 /\
+    (forall t, Z.of_nat (cnt (lev t) (expand d2)) = Z.max 0 (Z.of_nat (cnt (lev t) (expand d)) - c)) /\
+    (forall t, Z.of_nat (cnt (gev t) (expand d3)) = Z.max 0 (Z.of_nat (cnt (gev t) (expand d2)) - c)).
+Proof.
+  intros d c Hd Hc keys. destruct (truncation_spec d c Hd Hc) as (d2 & d3 & E2 & E3 & Hd3 & H2 & H3).
+  exists d2, d3. split; [exact E2|]. split; [exact E3|]. split; [exact Hd3|].
+  split; intros t; rewrite !cnt_expand; [apply H2|apply H3].
+Qed.
+
+(* correct_scores clause by clause: min_count (fewer scores -> min_count copies of bottom_value), unscored_value (the voters
+   that did not score the candidate add their number of copies of the configured value, or of the candidate's lowest
+   score), no truncation, truncation with the cut-off trunc_cutoff (an absolute count when truncation >= 1, else
+   floor(voters * truncation)): the c lowest, then the c highest scores are dropped *)
+Theorem C12_score_corrections : forall cf d n_votes, cs_okd d -> (cs_total d <= n_votes)%Z ->
+  ((cs_total d < sc_min_count cf)%Z -> correct_scores cf d n_votes = inl [(sc_bottom cf, sc_min_count cf)]) /\
+  ((sc_min_count cf <= cs_total d)%Z ->
+     (forall d1, unscored_fill cf d n_votes = inl d1 ->
+        cs_okd d1 /\
+        forall p, (forall x y, (x == y)%Q -> p x = p y) ->
+          wcnt p d1 = wcnt p d + match sc_unscored cf with
+                                 | UNone => 0
+                                 | UConst v => if p v then Z.to_nat (n_votes - cs_total d) else 0
+                                 | UMin => match list_min (expand d) with
+                                           | Some v => if p v then Z.to_nat (n_votes - cs_total d) else 0
+                                           | None => 0
+                                           end
+                                 end) /\
+     (Qle_bool (sc_trunc cf) 0 = true -> correct_scores cf d n_votes = unscored_fill cf d n_votes) /\
+     (Qle_bool (sc_trunc cf) 0 = false -> (0 <= n_votes)%Z ->
+        forall d1, unscored_fill cf d n_votes = inl d1 ->
+          let c := trunc_cutoff cf d n_votes in
+          (0 <= c)%Z /\
+          exists d2 d3, correct_scores cf d n_votes = inl d3 /\ cs_okd d3 /\
+            (forall t, Z.of_nat (wcnt (lev t) d2) = Z.max 0 (Z.of_nat (wcnt (lev t) d1) - c)) /\
+            (forall t, Z.of_nat (wcnt (gev t) d3) = Z.max 0 (Z.of_nat (wcnt (gev t) d2) - c)))).
+Proof. exact correct_scores_spec. Qed.
+
+(* 1,1,2,3,3,5 with cut-off 2: 2 and 3 are left *)
+Example C12_score_truncation_example :
+  let d : cscores := [(1, 2%Z); (2, 1%Z); (3, 2%Z); (5, 1%Z)]%Q in
+  cs_okd d /\ exists d2, subtract_lowest d (sort_q (map fst d)) 2 0 = Some d2 /\
+    exists d3, subtract_lowest d2 (rev (sort_q (map fst d))) 2 0 = Some d3 /\ sort_q (expand d3) = [2; 3]%Q.
+Proof.
+  split.
+  - split; [repeat constructor; cbn; discriminate|]. apply cs_distinctb_ok. vm_compute. reflexivity.
+  - eexists. split; [vm_compute; reflexivity|]. eexists. split; vm_compute; reflexivity.
+Qed.
+
+(* the short class in words: either the finalist cut is tied so that fewer than n plain run-off members remain, or no ballot
+   orders any two run-off members; and the contest is all of the run-off or nobody (being level on a ballot is transitive) *)
+Theorem C12_star_short_class : forall votes agg n, 1 <= n ->
+  (star_shortb votes agg n = true <->
+   length (star_finalists agg n) < n \/
+   (forall x y bw, In x (star_finalists agg n) -> In y (star_finalists agg n) -> In bw votes -> prefers (fst bw) x y = false)) /\
+  (star_contest votes agg n = star_finalists agg n \/ star_contest votes agg n = []).
+Proof.
+  intros votes agg n Hn. split; [exact (star_short_iff votes agg n Hn)|].
+  destruct (star_contest_all_or_none votes agg n) as [E|[E _]]; [left|right]; exact E.
+Qed.
+
 Print Assumptions C12_combinations_complete.
 Print Assumptions C12_combinations_sound.
 Print Assumptions C12_pav_optimal.
@@ -458,3 +678,15 @@ Print Assumptions C12_alloc_tie_second_refuted.
 Print Assumptions C12_alloc_zero_weight_refuted.
 Print Assumptions C12_mj_multi_copy.
 Print Assumptions C12_mj_multi_copy_general.
+Print Assumptions C12_mj_seats_default.
+Print Assumptions C12_mj_seats_tiebreaker.
+Print Assumptions C12_mj_seats_plus.
+Print Assumptions C12_mj_seats_round.
+Print Assumptions C12_star_table.
+Print Assumptions C12_star_seats.
+Print Assumptions C12_star_single_exact.
+Print Assumptions C12_corrected_scores_ok.
+Print Assumptions C12_mj_seats_default_wf.
+Print Assumptions C12_score_truncation.
+Print Assumptions C12_score_corrections.
+Print Assumptions C12_star_short_class.
